@@ -71,12 +71,12 @@ session's last id with the request's, answers with a bare `return`, and comes be
 check, the proxying and `applyMessageWait`; the proposed entry carries the request's id; the FSM
 updates the marker first, for client entries and for messages of death alike. -/
 theorem C10_wiring :
-    Gen.Exprs.fact "post.dedupe.cond" = "api.ircServer().LastPostMessage(session) == req.ClientMessageId" ∧
+    Gen.Exprs.fact "post.dedupe.cond" = "local:struct{Data string; ClientMessageId uint64}.ClientMessageId == recv.ircServer().LastPostMessage(param3)" ∧
     Gen.Exprs.fact "post.dedupe.body" = "return" ∧
     Gen.Exprs.fact "post.dedupe.first" = "true" ∧
-    Gen.Exprs.fact "post.msg.ClientMessageId" = "req.ClientMessageId" ∧
-    Gen.Exprs.fact "post.msg.Session" = "session" ∧
-    Gen.Exprs.fact "death.case.first" = "i.UpdateLastClientMessageID(msg)" := by decide
+    Gen.Exprs.fact "post.msg.ClientMessageId" = "local:struct{Data string; ClientMessageId uint64}.ClientMessageId" ∧
+    Gen.Exprs.fact "post.msg.Session" = "param3" ∧
+    Gen.Exprs.fact "death.case.first" = "param2.UpdateLastClientMessageID(param1)" := by decide
 
 /-! ## Part 2 — nothing but `updateLastClientMessageID` writes the marker -/
 
@@ -315,5 +315,229 @@ theorem C10_counterexample_without_wf :
     let bad : St := { sessions := [(⟨1, 0⟩, { exAlice with id := ⟨2, 0⟩ }), (⟨2, 0⟩, exBob)] }
     (match cmdAway { st := bad, msgid := 1 } ⟨1, 0⟩ ⟨none, "AWAY", ["gone"]⟩ with
       | .ok c => markers c.st | _ => []) = [(⟨1, 0⟩, 41), (⟨2, 0⟩, 41)] := by decide +kernel
+
+/-! ## non-vacuity (audit): every theorem above instantiated on a *reached* state
+
+The state `Ex.stR` is not written down by hand and checked, it is the result of running the model on
+the history `Ex.es0` from the initial state; its invariant comes from `run_preserves_gp`. -/
+namespace Ex
+def mk (type id : Nat) (session : Id) (data : String) (cmid : Nat) (addr : String := "") : Entry :=
+  { type := type, id := id, session := session, data := data, unixNano := 0, cmid := cmid, rev := 0,
+    remoteAddr := addr, cfg := none }
+/-- a network configuration with one operator; alice (session 2) and Bob (session 5) register -/
+def esA : List Entry := [
+  { mk 6 1 ⟨0, 0⟩ "…toml…" 0 with rev := 1, cfg := some { operators := [("root", "pw")] } },
+  mk 0 2 ⟨0, 0⟩ "authA" 0, mk 2 3 ⟨2, 0⟩ "NICK alice" 101, mk 2 4 ⟨2, 0⟩ "USER al 0 * :Alice" 102,
+  mk 0 5 ⟨0, 0⟩ "authB" 0, mk 2 6 ⟨5, 0⟩ "NICK Bob" 201 "10.0.0.2", mk 2 7 ⟨5, 0⟩ "USER bo 0 * :Bob" 202 "10.0.0.2",
+  mk 2 8 ⟨2, 0⟩ "JOIN #c" 103]
+/-- Bob's last line: he joins `#c` (client message id 203) -/
+def eB : Entry := mk 2 9 ⟨5, 0⟩ "JOIN #c" 203 "10.0.0.2"
+/-- afterwards only alice acts: she becomes IRC operator -/
+def esC : List Entry := [mk 2 10 ⟨2, 0⟩ "OPER root pw" 104]
+def es0 : List Entry := esA ++ eB :: esC
+def aliceR : Session := { id := ⟨2, 0⟩, auth := "authA", loggedIn := true, nick := "alice", username := "al", realname := "Alice", channels := ["#c"], lastActivity := 10, lastNonPing := 10, operator := true, created := 2, modes := ['o'], svid := "0", lastClientMessageId := 104, ircPrefix := ⟨"alice", "al", "robust/0x2"⟩ }
+def bobR : Session := { id := ⟨5, 0⟩, auth := "authB", loggedIn := true, nick := "Bob", username := "bo", realname := "Bob", channels := ["#c"], lastActivity := 9, lastNonPing := 9, created := 5, svid := "0", lastClientMessageId := 203, ircPrefix := ⟨"Bob", "bo", "robust/0x5"⟩, remoteAddr := "10.0.0.2" }
+/-- the state reached from the initial state by `es0` (`run0`) -/
+def stR : St :=
+  { sessions := [(⟨2, 0⟩, aliceR), (⟨5, 0⟩, bobR)]
+    nicks := [("alice", ⟨2, 0⟩), ("bob", ⟨5, 0⟩)]
+    channels := [("#c", { name := "#c", nicks := [("alice", { chanop := true }), ("bob", {})], modes := ['n', 't'] })]
+    lastProcessed := ⟨2, 0⟩
+    config := { revision := 1, operators := [("root", "pw")] } }
+theorem run0 : runEntries {} es0 = .ok stR := by
+  have h1 : (runEntries {} es0).isOk = true := by decide +kernel
+  have h2 : runSt (runEntries {} es0) = stR := by decide +kernel
+  rw [← h2]; exact run_eq_of_isOk h1
+theorem wf0 : WfHistory {} es0 := wf_of_B (by decide +kernel)
+/-- `stR` is reachable, hence satisfies the full invariant -/
+theorem invR : GPInv stR := run_preserves_gp GPInv_init wf0 run0
+theorem wfR : SessWf stR := invR.sessWf
+theorem aliceR_stored : AMap.get stR.sessions ⟨2, 0⟩ = some aliceR := by decide
+theorem bobR_stored : AMap.get stR.sessions ⟨5, 0⟩ = some bobR := by decide
+/-- Bob's session authenticates with its auth string -/
+theorem bob_auth : session stR (some "authB") "0x5" = .ok ⟨5, 0⟩ := rfl
+
+def ctxOf (r : Res Ctx) : Ctx :=
+  match r with
+  | .ok c => c
+  | _ => { st := {}, msgid := 0 }
+theorem eq_ok_ctx {r : Res Ctx} (h : r.isOk = true) : r = .ok (ctxOf r) := by
+  cases r with
+  | ok a => rfl
+  | panic s => cases h
+  | declined w => cases h
+
+def sessView (r : Except SessErr Id) : Option Id × Option SessErr :=
+  match r with
+  | .ok i => (some i, none)
+  | .error e => (none, some e)
+theorem sess_ok_of_view {r : Except SessErr Id} {i : Id} (h : sessView r = (some i, none)) : r = .ok i := by
+  cases r with
+  | ok j => simp only [sessView, Prod.mk.injEq, Option.some.injEq, and_true] at h; rw [h]
+  | error e => simp [sessView] at h
+theorem sess_error_of_view {r : Except SessErr Id} {e : SessErr} (h : sessView r = (none, some e)) : r = .error e := by
+  cases r with
+  | ok j => simp [sessView] at h
+  | error e' => simp only [sessView, Prod.mk.injEq, Option.some.injEq, true_and] at h; rw [h]
+
+/-! ### part 1 -/
+
+/-- `C10_retry_not_proposed`: Bob repeats the id of his last line (203) -/
+example : handlePost stR (some "authB") "0x5" 203 "JOIN #c" "10.0.0.2" = ⟨200, none⟩ :=
+  C10_retry_not_proposed stR (some "authB") "0x5" ⟨5, 0⟩ bobR 203 "JOIN #c" "10.0.0.2" bob_auth bobR_stored rfl
+/-- `C10_fresh_id_proposed`: a new id (204) is proposed, once -/
+example : ∃ e, handlePost stR (some "authB") "0x5" 204 "PRIVMSG #c :hi" "10.0.0.2" = ⟨200, some e⟩ ∧ e.type = 2 ∧
+    e.session = ⟨5, 0⟩ ∧ e.cmid = 204 :=
+  C10_fresh_id_proposed stR (some "authB") "0x5" ⟨5, 0⟩ bobR 204 "PRIVMSG #c :hi" "10.0.0.2" bob_auth bobR_stored (by decide)
+
+/-- Bob's next line as committed entry 11, and the same entry marked as message of death -/
+def eNext : Entry := mk 2 11 ⟨5, 0⟩ "PRIVMSG #c :hi" 204 "10.0.0.2"
+def eNextDead : Entry := { eNext with type := 5 }
+def bobR1 : Session := { bobR with lastClientMessageId := 204, lastActivity := 11, lastNonPing := 11 }
+/-- the state after `eNext` (also after `eNextDead`: the PRIVMSG changes nothing else, except that the
+client entry sets `lastProcessed`) -/
+def stR1 : St := resSt (applyEntry stR eNext)
+theorem eNext_ok : (applyEntry stR eNext).isOk = true := by decide +kernel
+theorem eNextDead_ok : (applyEntry stR eNextDead).isOk = true := by decide +kernel
+theorem bobR1_stored : AMap.get stR1.sessions ⟨5, 0⟩ = some bobR1 := by decide +kernel
+
+/-- `C10_marker_set_first` -/
+example : ∃ st1 s1, updateLastClientMessageID stR eNext = some st1 ∧ AMap.get st1.sessions ⟨5, 0⟩ = some s1 ∧
+    s1.lastClientMessageId = 204 := C10_marker_set_first stR eNext bobR bobR_stored
+/-- `C10_marker_set_by_death` -/
+example : ∃ st1 s1, applyEntry stR eNextDead = .ok (st1, []) ∧ AMap.get st1.sessions ⟨5, 0⟩ = some s1 ∧
+    s1.lastClientMessageId = 204 := C10_marker_set_by_death stR eNextDead rfl bobR bobR_stored
+example : markers (resSt (applyEntry stR eNextDead)) = [(⟨2, 0⟩, 104), (⟨5, 0⟩, 204)] := by decide +kernel
+
+/-- `C10_retry_after_apply`: on the state after `eNext`, three repeats (also from another address) -/
+example : ∀ r ∈ [("PRIVMSG #c :hi", "10.0.0.2"), ("PRIVMSG #c :hi", "10.0.0.9"), ("PRIVMSG #c :other text", "10.0.0.2")],
+    handlePost stR1 (some "authB") "0x5" 204 r.1 r.2 = ⟨200, none⟩ :=
+  C10_retry_after_apply stR1 (some "authB") "0x5" ⟨5, 0⟩ bobR1 204
+    (sess_ok_of_view (by decide +kernel))
+    bobR1_stored rfl _
+
+/-- Bob quits with his next line; alternatively alice kills him -/
+def eQuit : Entry := mk 2 11 ⟨5, 0⟩ "QUIT :bye" 204 "10.0.0.2"
+def eKill : Entry := mk 2 11 ⟨2, 0⟩ "KILL bob :bye" 105
+theorem eQuit_ok : (applyEntry stR eQuit).isOk = true := by decide +kernel
+theorem eKill_ok : (applyEntry stR eKill).isOk = true := by decide +kernel
+/-- `C10_retry_after_close`: after the QUIT was applied the retry of id 204 fails authentication
+(hypothesis), nothing is proposed.  (The error is `notYetSeen`, not `noSuchSession`: the client entry set
+`lastProcessed` to the session's own numeric id, 5 — see C17; `handlePost` answers 404 for both.) -/
+example : (handlePost (resSt (applyEntry stR eQuit)) (some "authB") "0x5" 204 "QUIT :bye" "10.0.0.2").proposal = none :=
+  C10_retry_after_close _ (some "authB") "0x5" .notYetSeen (sess_error_of_view (by decide +kernel)) 204 _ _
+example : markers (resSt (applyEntry stR eQuit)) = [(⟨2, 0⟩, 104)] := by decide +kernel
+
+/-! ### part 2 -/
+
+/-- alice's KILL of Bob as a handler run on the reached state -/
+def cR : Ctx := { st := stR, msgid := 11 }
+def mKill : IrcMsg := ⟨none, "KILL", ["bob", "bye"]⟩
+theorem kill_ok : (cmdKill cR ⟨2, 0⟩ mKill).isOk = true := by decide +kernel
+/-- `C10_handlers_keep_marker`: hypotheses `hh`, `h0`, `hw`, `hr` hold for the KILL … -/
+example : ∀ σ s', AMap.get (ctxOf (cmdKill cR ⟨2, 0⟩ mKill)).st.sessions σ = some s' →
+    (∃ s, AMap.get stR.sessions σ = some s ∧ s'.lastClientMessageId = s.lastClientMessageId) ∨
+    (AMap.get stR.sessions σ = none ∧ s'.lastClientMessageId = 0 ∧ σ.reply ≠ 0) :=
+  fun _ _ hs' => C10_handlers_keep_marker (fname := "cmdKill") rfl (c := cR) (sid := ⟨2, 0⟩) (m := mKill) rfl wfR
+    (eq_ok_ctx kill_ok) hs'
+/-- … and `hs'` for both sessions: Bob is flagged and off the channel but still stored, markers as before -/
+example : (ctxOf (cmdKill cR ⟨2, 0⟩ mKill)).st.sessions.map (fun p => (p.1, p.2.deleted, p.2.lastClientMessageId)) =
+      [(⟨2, 0⟩, false, 104), (⟨5, 0⟩, true, 203)] ∧
+    (ctxOf (cmdKill cR ⟨2, 0⟩ mKill)).st.channels.map (fun p => (p.1, AMap.keys p.2.nicks)) = [("#c", ["alice"])] :=
+  ⟨by decide +kernel, by decide +kernel⟩
+/-- `C10_handlers_keep_sessions` for the killed session -/
+example : ∃ s', AMap.get (ctxOf (cmdKill cR ⟨2, 0⟩ mKill)).st.sessions ⟨5, 0⟩ = some s' ∧ s'.lastClientMessageId = 203 :=
+  C10_handlers_keep_sessions (fname := "cmdKill") rfl (c := cR) (sid := ⟨2, 0⟩) (m := mKill) rfl wfR (eq_ok_ctx kill_ok) bobR_stored
+
+-- AUDIT: the second disjunct of `C10_handlers_keep_marker` (a pseudo-client created by a services `NICK`) is
+-- not exemplified here: its id is `⟨link, fnv64 nick⟩` and `fnv64` (via `String.toUTF8`) does not reduce in the
+-- kernel (`decide +kernel` gets stuck on it); the disjunct is part of the conclusion, no hypothesis depends on it.
+
+theorem pm_ok : (processMessage cR eKill (parseMessage eKill.data)).isOk = true := by decide +kernel
+/-- `C10_processMessage_keeps_marker` for the same line through the gate -/
+example : ∀ σ s', AMap.get (ctxOf (processMessage cR eKill (parseMessage eKill.data))).st.sessions σ = some s' →
+    (∃ s, AMap.get stR.sessions σ = some s ∧ s'.lastClientMessageId = s.lastClientMessageId) ∨
+    (AMap.get stR.sessions σ = none ∧ s'.lastClientMessageId = 0 ∧ σ.reply ≠ 0) :=
+  fun _ _ hs' => C10_processMessage_keeps_marker (c := cR) (e := eKill) rfl wfR (eq_ok_ctx pm_ok) hs'
+example : markers (ctxOf (processMessage cR eKill (parseMessage eKill.data))).st = [(⟨2, 0⟩, 104), (⟨5, 0⟩, 203)] := by decide +kernel
+
+/-- `C10_client_entry_marker` on `eNext` (Bob's PRIVMSG): Bob's marker becomes 204, alice keeps 104 -/
+example : (∀ s', AMap.get stR1.sessions ⟨5, 0⟩ = some s' → s'.lastClientMessageId = 204) ∧
+    (∀ σ s s', σ ≠ ⟨5, 0⟩ → AMap.get stR.sessions σ = some s → AMap.get stR1.sessions σ = some s' →
+      s'.lastClientMessageId = s.lastClientMessageId) :=
+  C10_client_entry_marker (e := eNext) wfR (entryOk_of_B (by decide)) rfl (eq_ok_of_isOk eNext_ok)
+example : markers stR1 = [(⟨2, 0⟩, 104), (⟨5, 0⟩, 204)] := by decide +kernel
+/-- … and on `eKill`, where the session of the entry survives and the other one is removed -/
+example : ∀ s', AMap.get (resSt (applyEntry stR eKill)).sessions ⟨2, 0⟩ = some s' → s'.lastClientMessageId = 105 :=
+  (C10_client_entry_marker (e := eKill) wfR (entryOk_of_B (by decide)) rfl (eq_ok_of_isOk eKill_ok)).1
+example : markers (resSt (applyEntry stR eKill)) = [(⟨2, 0⟩, 105)] := by decide +kernel
+
+/-- `C10_death_entry_marker` on `eNextDead` -/
+example : (∀ s', AMap.get (resSt (applyEntry stR eNextDead)).sessions ⟨5, 0⟩ = some s' → s'.lastClientMessageId = 204) ∧
+    (∀ σ s s', σ ≠ ⟨5, 0⟩ → AMap.get stR.sessions σ = some s →
+      AMap.get (resSt (applyEntry stR eNextDead)).sessions σ = some s' → s'.lastClientMessageId = s.lastClientMessageId) :=
+  C10_death_entry_marker (e := eNextDead) wfR (entryOk_of_B (by decide)) rfl (eq_ok_of_isOk eNextDead_ok)
+
+/-- a DeleteSession entry for Bob, a CreateSession entry, a Config entry -/
+def eDel : Entry := mk 1 11 ⟨5, 0⟩ "expired" 0
+def eNew : Entry := mk 0 11 ⟨0, 0⟩ "authC" 0
+def eCfg : Entry := { mk 6 11 ⟨0, 0⟩ "…toml…" 0 with rev := 2, cfg := some { maxChannels := 5 } }
+theorem eDel_ok : (applyEntry stR eDel).isOk = true := by decide +kernel
+theorem eNew_ok : (applyEntry stR eNew).isOk = true := by decide +kernel
+theorem eCfg_ok : (applyEntry stR eCfg).isOk = true := by decide +kernel
+/-- `C10_other_entries_keep_marker` for each of the three (σ = alice, resp. Bob) -/
+example : ∀ s', AMap.get (resSt (applyEntry stR eDel)).sessions ⟨2, 0⟩ = some s' → s'.lastClientMessageId = 104 :=
+  fun _ hs' => C10_other_entries_keep_marker (e := eDel) wfR (entryOk_of_B (by decide)) (by decide) (by decide)
+    (eq_ok_of_isOk eDel_ok) aliceR_stored hs'
+example : ∀ s', AMap.get (resSt (applyEntry stR eNew)).sessions ⟨5, 0⟩ = some s' → s'.lastClientMessageId = 203 :=
+  fun _ hs' => C10_other_entries_keep_marker (e := eNew) wfR (entryOk_of_B (by decide)) (by decide) (by decide)
+    (eq_ok_of_isOk eNew_ok) bobR_stored hs'
+example : ∀ s', AMap.get (resSt (applyEntry stR eCfg)).sessions ⟨5, 0⟩ = some s' → s'.lastClientMessageId = 203 :=
+  fun _ hs' => C10_other_entries_keep_marker (e := eCfg) wfR (entryOk_of_B (by decide)) (by decide) (by decide)
+    (eq_ok_of_isOk eCfg_ok) bobR_stored hs'
+example : markers (resSt (applyEntry stR eDel)) = [(⟨2, 0⟩, 104)] ∧
+    markers (resSt (applyEntry stR eNew)) = [(⟨2, 0⟩, 104), (⟨5, 0⟩, 203), (⟨11, 0⟩, 0)] ∧
+    markers (resSt (applyEntry stR eCfg)) = [(⟨2, 0⟩, 104), (⟨5, 0⟩, 203)] :=
+  ⟨by decide +kernel, by decide +kernel, by decide +kernel⟩
+
+/-- `C10_new_session_marker_zero`: session 11 is not stored in `stR` and is stored after `eNew` -/
+example : ∀ s', AMap.get (resSt (applyEntry stR eNew)).sessions ⟨11, 0⟩ = some s' →
+    s'.lastClientMessageId = 0 ∧ ((⟨11, 0⟩ : Id).reply = 0 → eNew.type = 0 ∧ (⟨11, 0⟩ : Id) = ⟨eNew.id, 0⟩) :=
+  fun _ hs' => C10_new_session_marker_zero (e := eNew) wfR (entryOk_of_B (by decide)) (eq_ok_of_isOk eNew_ok)
+    (by decide) hs'
+
+/-! ### histories -/
+
+/-- `C10_marker_is_last_cmid` from the *initial* state along `es0` (σ = Bob, not stored at the start, so
+`hP` holds for any `m0`; `m0 := 0`): the marker in `stR` is the expected one, 203 -/
+example : bobR.lastClientMessageId = expectedMarker ⟨5, 0⟩ 0 es0 :=
+  C10_marker_is_last_cmid (st := {}) (σ := ⟨5, 0⟩) (m0 := 0) (SessWf.of_core GPInv_init.ginv.inv.toWInvCore) wf0 rfl
+    (fun s hs => by cases hs) run0 bobR_stored
+example : expectedMarker ⟨5, 0⟩ 0 es0 = 203 ∧ expectedMarker ⟨2, 0⟩ 0 es0 = 104 := by decide
+
+/-- a continuation from the reached state: Bob talks twice, alice kills him, a message of death of alice, a
+new session -/
+def es1 : List Entry := [eNext, mk 2 12 ⟨5, 0⟩ "PRIVMSG #c :again" 205 "10.0.0.2", mk 2 13 ⟨2, 0⟩ "KILL bob :bye" 105,
+  mk 5 14 ⟨2, 0⟩ "boom" 106, mk 0 15 ⟨0, 0⟩ "authC" 0]
+theorem run1_ok : (runEntries stR es1).isOk = true := by decide +kernel
+theorem wf1 : WfHistory stR es1 := wf_of_B (by decide +kernel)
+/-- `C10_marker_is_last_cmid` from the reached state (σ = alice, stored with marker 104: `hP`) -/
+example : ∀ s', AMap.get (runSt (runEntries stR es1)).sessions ⟨2, 0⟩ = some s' → s'.lastClientMessageId = 106 :=
+  fun _ hs' => C10_marker_is_last_cmid (σ := ⟨2, 0⟩) (m0 := 104) wfR wf1 rfl
+    (fun s hs => by rw [aliceR_stored] at hs; cases hs; rfl) (run_eq_of_isOk run1_ok) hs'
+example : markers (runSt (runEntries stR es1)) = [(⟨2, 0⟩, 106), (⟨15, 0⟩, 0)] := by decide +kernel
+
+/-- `C10_retry_after_history` with the whole history from the initial state: `es0 = esA ++ eB :: esC`,
+`eB` is Bob's last entry, only alice acts afterwards; on the resulting node a POST of Bob repeating 203 is
+acknowledged without a proposal -/
+example : handlePost stR (some "authB") "0x5" 203 "JOIN #c" "10.0.0.7" = ⟨200, none⟩ :=
+  C10_retry_after_history (st := {}) (es1 := esA) (es2 := esC) (e := eB) (σ := ⟨5, 0⟩)
+    (SessWf.of_core GPInv_init.ginv.inv.toWInvCore) wf0 (by decide) (by decide) run0 (some "authB") "0x5" bob_auth _ _
+/-- … and from the reached state, where the last entry of alice is a message of death (type 5) followed by
+entries of others -/
+example : handlePost (runSt (runEntries stR es1)) (some "authA") "0x2" 106 "boom" "" = ⟨200, none⟩ :=
+  C10_retry_after_history (st := stR) (es1 := es1.take 3) (es2 := es1.drop 4) (e := mk 5 14 ⟨2, 0⟩ "boom" 106) (σ := ⟨2, 0⟩)
+    wfR wf1 (by decide) (by decide) (run_eq_of_isOk run1_ok) (some "authA") "0x2" (sess_ok_of_view (by decide +kernel)) _ _
+end Ex
 
 end Robust.Props.C10
